@@ -21,7 +21,7 @@ from vlib import Check, Broken, log
 
 T345 = math.degrees(math.atan2(4.0, 3.0))
 ROUTE_DIGITS = 12          # agreement required between evaluation routes of one and the same object
-GEO_DIGITS = 12            # C_aniso(h) = C_iso(unit range)(reduced distance), C(h) = C(-h), ...
+GEO_DIGITS = 11            # C_aniso(h) = C_iso(unit range)(reduced distance); measured: 13 or more
 PSD_OK = 1e-9              # lambda_min >= -PSD_OK * n * scale    -> class 1     (scale = max|K|, or lambda_max on the increments)
 PSD_NEG = 1e-6             # lambda_min <  -PSD_NEG * scale       -> class -1 (clearly negative); between: 0, inconclusive
 SYM_TOL = 0.0              # K(i,j) = K(j,i) exactly
@@ -328,7 +328,7 @@ def run(tier):
                           dict(rec0, kind="aniso", route=name),
                           {"geometry": geom, "h": g["hs"][t] if t >= 0 else None, "reduced_distance2": g["r2"][t] if t >= 0 else None,
                            "observed": dv["got"], "expected = unit-range isotropic structure at sqrt(r2)": dv["ref"]}))
-        tests = [("C(h)=C(-h)", o["sym"], 15)]
+        tests = [("C(h)=C(-h)", o["sym"], 14)]
         if e["ord"] == -1:
             tests.append(("|C(h)|<=C(0)", o["bound"], 13))
         if e["cmp"]:
